@@ -212,7 +212,68 @@ func (in *instr) instrumentAccesses() {
 	in.funcName = ""
 }
 
+// capturedByGo returns the local variables of the function that are used inside a
+// function literal started with a go statement and declared outside that literal:
+// they are shared between the goroutines, exactly like fields reached through a
+// pointer. Variables of synchronisation types (and channels, functions) are the
+// means of synchronisation, not data, and are left alone.
+func (in *instr) capturedByGo(body *ast.BlockStmt) map[*types.Var]bool {
+	out := map[*types.Var]bool{}
+	ast.Inspect(body, func(n ast.Node) bool {
+		gs, ok := n.(*ast.GoStmt)
+		if !ok {
+			return true
+		}
+		lit, ok := gs.Call.Fun.(*ast.FuncLit)
+		if !ok {
+			return true
+		}
+		ast.Inspect(lit.Body, func(m ast.Node) bool {
+			id, ok := m.(*ast.Ident)
+			if !ok {
+				return true
+			}
+			v, ok := in.info().Uses[id].(*types.Var)
+			if !ok || v.IsField() || v.Pkg() == nil || v.Parent() == in.pkg.Types.Scope() {
+				return true
+			}
+			if v.Pos() >= lit.Pos() && v.Pos() <= lit.End() {
+				return true // declared inside the literal
+			}
+			switch t := v.Type().Underlying().(type) {
+			case *types.Chan, *types.Signature:
+				return true
+			case *types.Pointer:
+				_ = t
+			}
+			ts := v.Type().String()
+			if strings.Contains(ts, "sync.") || strings.Contains(ts, "/vrt.") || strings.Contains(ts, "atomic.") {
+				return true
+			}
+			out[v] = true
+			return true
+		})
+		return true
+	})
+	return out
+}
+
 func (in *instr) instrumentBody(body *ast.BlockStmt) {
+	captured := in.capturedByGo(body)
+	capturedIdent := func(e ast.Expr) (*ast.Ident, accessInfo, bool) {
+		id, ok := e.(*ast.Ident)
+		if !ok || len(captured) == 0 {
+			return nil, accessInfo{}, false
+		}
+		v, ok := in.info().Uses[id].(*types.Var)
+		if !ok || !captured[v] {
+			return nil, accessInfo{}, false
+		}
+		loc := in.funcName + "." + v.Name() + "(captured)"
+		return id, accessInfo{loc: loc, site: loc + "@" + in.funcName}, true
+	}
+	identReads := map[*ast.Ident]accessInfo{}
+	identLhs := map[*ast.Ident]bool{}
 	// 1. plan on the original tree
 	lhs := map[ast.Expr]bool{}       // expressions in store position (not reads)
 	addrTaken := map[ast.Expr]bool{} // operands of &
@@ -230,6 +291,13 @@ func (in *instr) instrumentBody(body *ast.BlockStmt) {
 			wp = &writePlan{}
 		}
 		switch x := t.(type) {
+		case *ast.Ident:
+			if id, ai, ok := capturedIdent(x); ok {
+				identLhs[id] = true
+				wp.pre = append(wp.pre, in.stmtCall("Pre", strLit(ai.loc), strLit(ai.site)))
+				wp.post = append(wp.post, in.stmtCall("W", addrOf(ast.NewIdent(id.Name)), strLit(ai.loc), strLit(ai.site)))
+				in.stats["captured_writes"]++
+			}
 		case *ast.SelectorExpr:
 			if sel, ai, ok := in.fieldSel(x); ok {
 				lhs[sel] = true
@@ -294,6 +362,13 @@ func (in *instr) instrumentBody(body *ast.BlockStmt) {
 	contentReads := map[ast.Node]accessInfo{} // IndexExpr / len() call -> contents location
 	ast.Inspect(body, func(n ast.Node) bool {
 		switch x := n.(type) {
+		case *ast.Ident:
+			if identLhs[x] || addrTaken[x] {
+				return true
+			}
+			if id, ai, ok := capturedIdent(x); ok {
+				identReads[id] = ai
+			}
 		case *ast.SelectorExpr:
 			if lhs[x] || addrTaken[x] {
 				return true
@@ -326,6 +401,29 @@ func (in *instr) instrumentBody(body *ast.BlockStmt) {
 			case *ast.CallExpr:
 				n.Args[0] = &ast.CallExpr{Fun: vrtSel("MC"), Args: []ast.Expr{n.Args[0], strLit(ai.loc), strLit(ai.site)}}
 			}
+			return true
+		}
+		if id, isID := c.Node().(*ast.Ident); isID {
+			ai, planned := identReads[id]
+			if !planned {
+				return true
+			}
+			switch p := c.Parent().(type) {
+			case *ast.SelectorExpr:
+				if p.Sel == id {
+					return true
+				}
+			case *ast.KeyValueExpr:
+				if p.Key == id {
+					return true
+				}
+			case *ast.Field, *ast.ValueSpec, *ast.LabeledStmt, *ast.BranchStmt:
+				return true
+			}
+			delete(identReads, id)
+			in.stats["captured_reads"]++
+			in.needVrt = true
+			c.Replace(&ast.ParenExpr{X: &ast.StarExpr{X: &ast.CallExpr{Fun: vrtSel("R"), Args: []ast.Expr{addrOf(ast.NewIdent(id.Name)), strLit(ai.loc), strLit(ai.site)}}}})
 			return true
 		}
 		sel, ok := c.Node().(*ast.SelectorExpr)
